@@ -74,8 +74,9 @@ Proof.
 Qed.
 
 (* The quantising format reproduces every field exactly (vector payloads numerically, in dense
-   form) outside the two known classes: Bytes scalars, and vectors on the id-list path holding a
-   value the f32->u64->f32 cast changes. *)
+   form) outside two classes: Bytes scalars (known finding: the format has no Bytes scalar), and
+   vectors on the id-list path holding a value the f32->u64->f32 cast changes (for any id-path
+   rule; C07_quant_exact_all below shows the second class is empty for the repaired rule). *)
 Theorem C07_quant_exact : forall delta f v,
   quant_known delta f v = false -> q_equal v (cunmap (cmap delta f v)) = true.
 Proof. exact quant_exact. Qed.
@@ -84,12 +85,26 @@ Example C07_quant_exact_nonvacuous :
   /\ quant_known true [119] (TSparse 4 [1] [3212836864]) = false.
 Proof. split; vm_compute; reflexivity. Qed.
 
+(* With the guarded id path (gen_id_exact_guard, re-checked every run) the f32->u64->f32 cast is the
+   identity on every admitted value -- proved at bit level (Proofs.id_exact_cast) -- so ONLY Bytes
+   scalars are outside: every other field of every well-formed value is reproduced. *)
+Theorem C07_quant_exact_all : forall delta f v,
+  tval_wf v -> is_bytes_scalar v = false -> q_equal v (cunmap (cmap delta f v)) = true.
+Proof. exact quant_exact_all. Qed.
+
+Theorem C07_id_cast_exact : forall b, b < 2 ^ 32 -> id_exact b = true -> u64_to_f32 (f32_to_u64 b) = b.
+Proof. exact id_exact_cast. Qed.
+Example C07_id_cast_exact_nonvacuous : id_exact 1084227584 = true /\ id_exact 1602224127 = true.   (* 5.0, the largest f32 below 2^64 *)
+Proof. split; vm_compute; reflexivity. Qed.
+
 Theorem C07_quant_exact_refuted_bytes :
   exists delta f v, is_bytes_scalar v = true /\ q_equal v (cunmap (cmap delta f v)) = false.
 Proof. exact quant_refuted_bytes. Qed.
 
+(* the earlier id-list heuristic (by name alone; fixed in /repo, kept as the replayed witness) *)
 Theorem C07_quant_exact_refuted_ids :
-  exists delta f v, id_path_lossy delta f v = true /\ q_equal v (cunmap (cmap delta f v)) = false.
+  exists delta f v, id_path_lossy_with false delta f v = true
+                    /\ q_equal v (cunmap (cmap_with false delta f v)) = false.
 Proof. exact quant_refuted_ids. Qed.
 
 Print Assumptions C07_header_roundtrip.
@@ -101,5 +116,7 @@ Print Assumptions C07_crash_atomic_with_extension_refuted.
 Print Assumptions C07_embedding_exact.
 Print Assumptions C07_store_roundtrip.
 Print Assumptions C07_quant_exact.
+Print Assumptions C07_quant_exact_all.
+Print Assumptions C07_id_cast_exact.
 Print Assumptions C07_quant_exact_refuted_bytes.
 Print Assumptions C07_quant_exact_refuted_ids.
